@@ -86,6 +86,15 @@ def handle : P String := do
   | "apatch" => do
     let C ← P.list P.nat; let r ← pRootA C; let a0 ← pAxis; let a1 ← pAxis; let i ← P.nat; let j ← P.nat; P.done
     pure (showExcept (fun x => x) (do let base ← r; let p ← patchOf base a0 a1 i j; pure (showPatch C base.md.cs.shape p)))
+  | "position" => do
+    let n0 ← P.nat; let n1 ← P.nat; let i ← P.nat; let j ← P.nat; P.done
+    let r := position n0 n1 i j
+    let h := match r.1 with | .left => "left" | .right => "right" | .internal => "internal"
+    let v := match r.2 with | .bottom => "bottom" | .top => "top" | .internal => "internal"
+    pure (h ++ " " ++ v)
+  | "order" => do
+    let n0 ← P.nat; let n1 ← P.nat; P.done
+    pure (" ; ".intercalate ((patchOrder n0 n1).map fun q => s!"{q.1} {q.2}"))
   | "blend" => do
     let a0 ← pAxis; let a1 ← pAxis; P.done
     pure (showExcept (fun _ => "grid") (blendAndAssemble a0 a1))
